@@ -64,12 +64,38 @@ func bigCallsIn(c *Ctx, pkgInfo *types.Info, node ast.Node, depth int, seen map[
 		}
 		if depth > 0 && !seen[f] {
 			if fn := c.FnOf(f); fn != nil {
+				if isWidthReducer(fn) {
+					continue // reduces a result to the width of its type (C09.R11); its Mod/Sub are not the operator
+				}
 				seen[f] = true
 				out = append(out, bigCallsIn(c, fn.Info(), fn.Decl.Body, depth-1, seen)...)
 			}
 		}
 	}
 	return out
+}
+
+// isWidthReducer: a function that is given a semantic type and brings an integer into that type's range: it asks for
+// the type's bit size and signedness and shifts 1 by the size. Its modulus is the positive 2^N, for which the Euclidean
+// Mod is the mathematical residue.
+func isWidthReducer(fn *Fn) bool {
+	if fn == nil || fn.Decl == nil || fn.Decl.Body == nil {
+		return false
+	}
+	got := map[string]bool{}
+	for _, cl := range callsIn(fn.Decl.Body, true) {
+		if g := callee(fn.Info(), cl); g != nil {
+			got[g.Name()] = true
+		}
+	}
+	hasTypeParam := false
+	sig := fn.Obj.Type().(*types.Signature)
+	for i := 0; i < sig.Params().Len(); i++ {
+		if nt := namedOf(sig.Params().At(i).Type()); nt != nil && nt.Obj().Name() == "SemType" {
+			hasTypeParam = true
+		}
+	}
+	return hasTypeParam && got["GetNumberBitSize"] && got["IsSigned"] && got["Lsh"]
 }
 
 func c09R1(c *Ctx, r *Report) {
@@ -104,6 +130,11 @@ func c09R1(c *Ctx, r *Report) {
 						if recv, ok := isBigMethod(f); ok && recv == "Int" {
 							switch f.Name() {
 							case "Div", "Mod", "DivMod":
+								if curFn != nil && f.Name() == "Mod" {
+									if fo, ok := info.Defs[curFn.Name].(*types.Func); ok && isWidthReducer(c.FnOf(fo)) {
+										break
+									}
+								}
 								euclid++
 								fn := "?"
 								if curFn != nil {
